@@ -41,6 +41,7 @@ type checkRun struct {
 	seed     int
 	slice    map[string]bool
 	safety   bool
+	batches  map[*ssa.Function]*batchRun // bounded input search: one real run per function
 	targets  []target
 	vcs      []*VC
 	tally    *Tally
@@ -48,7 +49,7 @@ type checkRun struct {
 	extraObl []*Obligation
 	notes    []string
 	nLemmas  int
-	scanOnly bool // the property is decided by scan obligations only (C19)
+	scanOnly bool   // the property is decided by scan obligations only (C19)
 	tag      string // the clause tag of the current pass (the property id, or one of its sub-slices)
 }
 
@@ -364,82 +365,82 @@ func runCheck(repo, verifDir, prop, tier string) int {
 		}
 	}
 	runPass := func() {
-	done := map[string]bool{}
-	verify := func(t target) {
-		e.selfIface = t.selfIface
-		e.exemptNext = t.exempt
-		safety := cr.safety
-		if cr.prop == "C17" && !(strings.Contains(t.fn.Name(), "InitGenesis") || strings.Contains(t.fn.Name(), "Validate") || strings.HasPrefix(t.fn.Name(), "SetPaused") || strings.HasPrefix(t.fn.Name(), "SetDispatched") || t.fn.Name() == "SetParams") {
-			// C17 claims panic freedom for validation and initialisation (the module panics on an init error);
-			// the export functions are proved functionally only
-			safety = false
-		}
-		if cr.prop == "C11" && !(t.fn.Name() == "clearOrbiterBalance" || t.fn.Name() == "BeforeTransferHook" || t.fn.Name() == "validateInitialConditions" ||
-			(t.fn.Name() == "HandlePacket" && strings.Contains(t.fn.String(), "forwarder.Forwarder"))) {
-			// C11 claims panic freedom only where the pre-existing balance is read (the whole receive path is C14's)
-			safety = false
-		}
-		if e.isTypeInvWriter(t.fn) {
-			safety = false
-		}
-		vc := e.verifyFunc(t.fn, t.ct, cr.slice, safety, t.extra)
-		e.selfIface = nil
-		vc.discharge(SolveOpts{Dir: qdir, Timeouts: timeouts, Parallel: 16, Seed: seed, Second: tier == "thorough"}, cr.tally)
-		cr.vcs = append(cr.vcs, vc)
-	}
-	for _, t := range cr.targets {
-		done[t.fn.String()+"|"+t.key] = true
-		verify(t)
-	}
-	// every in-repo contract that was *assumed* at a call site during this run is verified in this run
-	// too (its clauses of this property's slice, [base] included), until nothing new is used.
-	for round := 0; round < 8; round++ {
-		var more []target
-		var keys []string
-		for k := range e.specs.contracts {
-			keys = append(keys, k)
-		}
-		sort.Strings(keys)
-		for _, k := range keys {
-			ct := e.specs.contracts[k]
-			if !ct.used || ct.Trusted || ct.Opaque {
-				continue
+		done := map[string]bool{}
+		verify := func(t target) {
+			e.selfIface = t.selfIface
+			e.exemptNext = t.exempt
+			safety := cr.safety
+			if cr.prop == "C17" && !(strings.Contains(t.fn.Name(), "InitGenesis") || strings.Contains(t.fn.Name(), "Validate") || strings.HasPrefix(t.fn.Name(), "SetPaused") || strings.HasPrefix(t.fn.Name(), "SetDispatched") || t.fn.Name() == "SetParams") {
+				// C17 claims panic freedom for validation and initialisation (the module panics on an init error);
+				// the export functions are proved functionally only
+				safety = false
 			}
-			fns := e.instances(k)
-			var sel types.Type
-			if len(fns) == 0 {
-				fns = e.implementers(k)
-				sel = e.ifaceOfKey(k)
-				if len(ct.Implementers) > 0 {
-					var keep []*ssa.Function
-					for _, fn := range fns {
-						for _, pat := range ct.Implementers {
-							if strings.Contains(fn.String(), pat) {
-								keep = append(keep, fn)
-								break
-							}
-						}
-					}
-					fns = keep
-				}
+			if cr.prop == "C11" && !(t.fn.Name() == "clearOrbiterBalance" || t.fn.Name() == "BeforeTransferHook" || t.fn.Name() == "validateInitialConditions" ||
+				(t.fn.Name() == "HandlePacket" && strings.Contains(t.fn.String(), "forwarder.Forwarder"))) {
+				// C11 claims panic freedom only where the pre-existing balance is read (the whole receive path is C14's)
+				safety = false
 			}
-			for _, fn := range fns {
-				id := fn.String() + "|" + k
-				if done[id] {
-					continue
-				}
-				done[id] = true
-				more = append(more, target{fn: fn, ct: ct, key: k, why: "assumed at a call site of this slice", selfIface: sel, exempt: !ct.usedStrict})
+			if e.isTypeInvWriter(t.fn) {
+				safety = false
 			}
+			vc := e.verifyFunc(t.fn, t.ct, cr.slice, safety, t.extra)
+			e.selfIface = nil
+			vc.discharge(SolveOpts{Dir: qdir, Timeouts: timeouts, Parallel: 16, Seed: seed, Second: tier == "thorough"}, cr.tally)
+			cr.vcs = append(cr.vcs, vc)
 		}
-		if len(more) == 0 {
-			break
-		}
-		for _, t := range more {
-			cr.targets = append(cr.targets, t)
+		for _, t := range cr.targets {
+			done[t.fn.String()+"|"+t.key] = true
 			verify(t)
 		}
-	}
+		// every in-repo contract that was *assumed* at a call site during this run is verified in this run
+		// too (its clauses of this property's slice, [base] included), until nothing new is used.
+		for round := 0; round < 8; round++ {
+			var more []target
+			var keys []string
+			for k := range e.specs.contracts {
+				keys = append(keys, k)
+			}
+			sort.Strings(keys)
+			for _, k := range keys {
+				ct := e.specs.contracts[k]
+				if !ct.used || ct.Trusted || ct.Opaque {
+					continue
+				}
+				fns := e.instances(k)
+				var sel types.Type
+				if len(fns) == 0 {
+					fns = e.implementers(k)
+					sel = e.ifaceOfKey(k)
+					if len(ct.Implementers) > 0 {
+						var keep []*ssa.Function
+						for _, fn := range fns {
+							for _, pat := range ct.Implementers {
+								if strings.Contains(fn.String(), pat) {
+									keep = append(keep, fn)
+									break
+								}
+							}
+						}
+						fns = keep
+					}
+				}
+				for _, fn := range fns {
+					id := fn.String() + "|" + k
+					if done[id] {
+						continue
+					}
+					done[id] = true
+					more = append(more, target{fn: fn, ct: ct, key: k, why: "assumed at a call site of this slice", selfIface: sel, exempt: !ct.usedStrict})
+				}
+			}
+			if len(more) == 0 {
+				break
+			}
+			for _, t := range more {
+				cr.targets = append(cr.targets, t)
+				verify(t)
+			}
+		}
 	}
 	runPass()
 	for _, sub := range subSlices[prop] {
@@ -653,24 +654,24 @@ func (cr *checkRun) report() int {
 		level = "other" // decided by inspection obligations over the SSA, not by SMT (C19; MANIFEST category "other")
 	}
 	cov := map[string]interface{}{
-		"obligations":            len(all),
-		"discharged":             discharged,
-		"checker_cmd":            fmt.Sprintf("cd /verif && ./check %s %s", cr.prop, cr.tier),
-		"trusted_base":           append(keys(trusted), "go/ssa + go/types (x/tools v0.29.0) as the front end", "govc (this VC generator)", "z3 5.1.0 / cvc5 1.0.3 / z3 4.8.12"),
-		"functions_under_contract": keys(fnUnder),
+		"obligations":                          len(all),
+		"discharged":                           discharged,
+		"checker_cmd":                          fmt.Sprintf("cd /verif && ./check %s %s", cr.prop, cr.tier),
+		"trusted_base":                         append(keys(trusted), "go/ssa + go/types (x/tools v0.29.0) as the front end", "govc (this VC generator)", "z3 5.1.0 / cvc5 1.0.3 / z3 4.8.12"),
+		"functions_under_contract":             keys(fnUnder),
 		"functions_inlined_not_under_contract": keys(inlined),
-		"havocked_callees":       keys(havocked),
-		"obligations_by_kind":    kinds,
-		"discharged_by_solver":   cr.tally.BySolver,
-		"second_solver_agreed":   cr.tally.Agreed,
-		"solver_seconds":         cr.tally.SolverSec,
-		"solver_queries":         cr.tally.Queries,
-		"samples":                samples,
-		"known_findings_reported": knownOut,
-		"undischarged":           failed,
-		"notes":                  keys(notes),
-		"unsupported_constructs": keys(unsupported),
-		"explanation":            "Each obligation is one SMT query (negated goal under the function's passive-form assumptions) generated from go/ssa of /repo's working tree; 'discharged' counts queries answered unsat (sat for covers). Integers are mathematical with Go wrap-around applied at every arithmetic instruction; math.Int is a mathematical integer bounded by 2^256.",
+		"havocked_callees":                     keys(havocked),
+		"obligations_by_kind":                  kinds,
+		"discharged_by_solver":                 cr.tally.BySolver,
+		"second_solver_agreed":                 cr.tally.Agreed,
+		"solver_seconds":                       cr.tally.SolverSec,
+		"solver_queries":                       cr.tally.Queries,
+		"samples":                              samples,
+		"known_findings_reported":              knownOut,
+		"undischarged":                         failed,
+		"notes":                                keys(notes),
+		"unsupported_constructs":               keys(unsupported),
+		"explanation":                          "Each obligation is one SMT query (negated goal under the function's passive-form assumptions) generated from go/ssa of /repo's working tree; 'discharged' counts queries answered unsat (sat for covers). Integers are mathematical with Go wrap-around applied at every arithmetic instruction; math.Int is a mathematical integer bounded by 2^256.",
 	}
 	ev := map[string]interface{}{
 		"property_id": cr.prop,
